@@ -312,6 +312,139 @@ func errUsedFrom(fam *Family, v ssa.Value, from *ssa.BasicBlock) bool {
 	return usedReg(v)
 }
 
+// knownNilAt: v (an error register, or a load of an error variable) is known to be nil in block `at` because a nil test
+// of the same register / variable dominates `at` on its nil side with no store to the variable in between. Returns the
+// testing block.
+func knownNilAt(fam *Family, fn *ssa.Function, v ssa.Value, at *ssa.BasicBlock) *ssa.BasicBlock {
+	allocOf := func(x ssa.Value) *ssa.Alloc {
+		if u, ok := x.(*ssa.UnOp); ok && u.Op == token.MUL {
+			if al, ok := fam.canon(u.X).(*ssa.Alloc); ok {
+				return al
+			}
+		}
+		return nil
+	}
+	val := allocOf(v)
+	for _, t := range fn.Blocks {
+		tv, _, nilSide, ok := errNilTest(t)
+		if !ok || len(nilSide.Preds) != 1 || !(nilSide == at || nilSide.Dominates(at)) {
+			continue
+		}
+		if tv == v {
+			return t
+		}
+		tal := allocOf(tv)
+		if val == nil || tal != val {
+			continue
+		}
+		killed := false
+		for _, st := range fam.stores[val] {
+			if st.Parent() != fn {
+				// written by a closure: it matters only when the closure can run between the test and `at`
+				if closureMayRunIn(fam, fn, st.Parent(), func(b *ssa.BasicBlock) bool {
+					return (b == nilSide || nilSide.Dominates(b)) && (b == at || blockReach(b, nil)[at])
+				}) {
+					killed = true
+					break
+				}
+				continue
+			}
+			sb := st.Block()
+			if !(sb == nilSide || nilSide.Dominates(sb)) {
+				continue
+			}
+			if sb == at {
+				if ld, isI := v.(ssa.Instruction); isI && ld.Block() == at && instrIndex(st) > instrIndex(ld) {
+					continue
+				}
+				killed = true
+			} else if blockReach(sb, nil)[at] {
+				killed = true
+			}
+		}
+		if !killed {
+			return t
+		}
+	}
+	return nil
+}
+
+// closureMayRunIn: may the literal g (nested somewhere in fn) be invoked from a block of fn satisfying inRegion, or at an
+// unknown time (deferred, started as a goroutine, escaping into a call / field / return)?
+func closureMayRunIn(fam *Family, fn, g *ssa.Function, inRegion func(*ssa.BasicBlock) bool) bool {
+	for g.Parent() != nil && g.Parent() != fn {
+		g = g.Parent()
+	}
+	if g.Parent() != fn {
+		return true
+	}
+	res := false
+	seen := map[ssa.Value]bool{}
+	var follow func(v ssa.Value, d int)
+	follow = func(v ssa.Value, d int) {
+		if res || seen[v] || v.Referrers() == nil {
+			return
+		}
+		seen[v] = true
+		if d > 6 {
+			res = true
+			return
+		}
+		for _, ref := range *v.Referrers() {
+			switch x := ref.(type) {
+			case *ssa.DebugRef:
+			case *ssa.Defer, *ssa.Go:
+				res = true
+			case *ssa.Call:
+				if x.Call.Value == v {
+					if inRegion(x.Block()) {
+						res = true
+					}
+				} else {
+					// handed to another function as a synchronous callback (retry.Do, lo.*, Range): runs at the call
+					if inRegion(x.Block()) {
+						res = true
+					}
+				}
+			case *ssa.Store:
+				if x.Val != v {
+					continue
+				}
+				al, isAl := fam.canon(x.Addr).(*ssa.Alloc)
+				if !isAl {
+					res = true
+					continue
+				}
+				for _, in := range fam.allInstr {
+					if ld, ok := in.(*ssa.UnOp); ok && ld.Op == token.MUL && fam.canon(ld.X) == ssa.Value(al) {
+						if ld.Parent() != fn {
+							res = true
+						} else {
+							follow(ld, d+1)
+						}
+					}
+				}
+			case *ssa.Phi:
+				follow(x, d+1)
+			case *ssa.MakeInterface, *ssa.ChangeType:
+				follow(x.(ssa.Value), d+1)
+			default:
+				res = true
+			}
+		}
+	}
+	found := false
+	for _, b := range fn.Blocks {
+		for _, in := range b.Instrs {
+			if mc, ok := in.(*ssa.MakeClosure); ok && mc.Fn == ssa.Value(g) {
+				found = true
+				follow(mc, 0)
+			}
+		}
+	}
+	return res || !found
+}
+
 // g3Allowed: returns of a nil error inside a failure branch that are deliberate; key = function | origin callee.
 var g3Allowed = map[string]string{
 	"(*replicateChannelManager).startReadCollectionForMilvus | Do": "the collection does not exist downstream and is already dropped at the source: there is nothing to start, the caller skips it (the error is the probe's 'not found')",
@@ -786,6 +919,15 @@ func genericRules(w *World, r *Report, prop string) {
 							continue
 						}
 						if !isNilConst(last) {
+							// the returned error is a variable that a test made inside the failure branch has shown to be
+							// nil (`if err = cleanup(); err != nil {…}; return err`): the first failure is reported as success
+							if t := knownNilAt(fam, fn, last, b2); t != nil && t != b && (t == nn || nn.Dominates(t)) {
+								c3 := fmt.Sprintf("%s | nil-tested error variable returned on the failure branch of %s", host, oname)
+								if perCallee[oname] > 1 {
+									c3 = fmt.Sprintf("%s #%d", c3, perCallee[oname])
+								}
+								r.Fail(prop+"-G3", c3, ret.Pos(), "after "+oname+" failed, the error variable is assigned the result of a later call, tested, and returned on the branch where it is nil: the caller takes the failed step for done")
+							}
 							continue
 						}
 						key := host + " | " + oname
